@@ -3,7 +3,7 @@ from core import run_cases
 
 MODULES = ["Props.C06"]
 THEOREMS = ["Props.C06.c06_identity", "Props.C06.c06_headers", "Props.C06.c06_clean", "Props.C06.c06_name_index",
-            "Props.C06.c06_index_is_first", "Props.C06.c06_short_row"]
+            "Props.C06.c06_index_is_first", "Props.C06.c06_short_row", "Props.C06.c06_csv_roundtrip", "Props.C06.c06_delivered"]
 
 
 def run(check, tier):
@@ -32,8 +32,27 @@ def run(check, tier):
         elif res["disagree"]:
             check.break_("correspondence suite `reader`: " + res["disagree"][0]["what"], {"input": c, "disagreements": res["disagree"][:3]})
     check.extra["dialects"] = dial
+    # the csv model on arbitrary text (correspondence only)
+    raws = [S.gen_raw(check.seed, i) for i in range(n)]
+    nerr = 0
+    for res in run_cases("reader_suite", "case_raw", raws, chunk=64):
+        if "infra_error" in res:
+            check.infra.append(res["infra_error"] + res.get("trace", "")[-700:])
+            continue
+        check.evaluations += 1
+        check.count("raw_texts")
+        if res["error"]:
+            nerr += 1
+        if res["nontrivial"]:
+            check.count("raw_texts_with_quotes_and_two_records")
+        if res["disagree"]:
+            check.break_("correspondence suite `reader`: " + res["disagree"][0]["what"], {"input": res["case"], "disagreements": res["disagree"][:3]})
+    check.extra["raw_texts_raising_csv_error"] = nerr
     check.extra["rule"] = ("0-12 records of 0-6 cells of arbitrary text (unicode, quotes, delimiters, newlines, no CR), blank records anywhere, ragged rows, written "
                            "with csv.writer in 4 delimiters x 2 quote characters; the real collect() with [yes()] must return the records; headers, #name/#index "
                            "and short rows checked through real csvpaths; non-trivial = at least two data records (with a short row in the header cases)")
-    check.assumptions.append("PARTIAL: Python's csv reader/writer and UTF-8 decoding are parameters of the model (exercised, not proved); the theorems cover "
-                             "everything between the reader and the caller")
+    check.extra["rule_raw"] = ("texts of up to 30 tokens (plain characters incl. U+2028, VT, FS, NEL; delimiter; quote; doubled quote; LF; CR; CRLF; the other "
+                               "quote and delimiters), with and without a final line end, field size limit default or 1/2/4: the csv model's reader against "
+                               "DataFileReader (csv.reader over a text-mode file) — records or csv.Error")
+    check.assumptions.append("Python's csv module is modelled (Model/Csv.lean: reader state machine of Modules/_csv.c, QUOTE_MINIMAL writer) and tied to the "
+                             "real module by this suite; UTF-8 decoding and the OS file layer are below the model")
